@@ -42,13 +42,14 @@ _SHARE_BY_CLASS = ("MachineModel", "ArchSemantics", "ISASemantics", "ParserX86AT
 SPEEDS = (1e-5, 3e-5, 1e-4, 3e-4, 1e-3)  # simulated seconds per traced line
 START_DELAYS = (0.0, 0.0, 0.003, 0.05, 0.19, 0.35)
 RTTS = (0.0, 0.0, 1e-4, 1e-3, 1e-2, 1e-1)
-ITEM_COSTS = (0.0, 0.0, 1e-6, 1e-5)  # simulated seconds per element of a delivered list (pickling, transfer)  # simulated seconds per manager round trip
+ITEM_COSTS = (0.0, 0.0, 1e-6, 1e-5)
+FORK_COSTS = (0.0, 0.0, 1e-3, 1e-2, 5e-2)  # simulated seconds the parent spends in one Process.start()  # simulated seconds per element of a delivered list (pickling, transfer)  # simulated seconds per manager round trip
 
 
 class World:
     """Per-run process table and configuration shared by the stand-ins."""
 
-    def __init__(self, sim, ncpu=4, shared=(), speeds=SPEEDS, start_delays=START_DELAYS, rtt=0.0, item_cost=0.0):
+    def __init__(self, sim, ncpu=4, shared=(), speeds=SPEEDS, start_delays=START_DELAYS, rtt=0.0, item_cost=0.0, fork_cost=0.0):
         self.sim = sim
         self.ncpu = ncpu
         self.shared = list(shared)  # objects memo-shared (read-only) with workers
@@ -56,6 +57,7 @@ class World:
         self.start_delays = start_delays
         self.rtt = rtt
         self.item_cost = item_cost
+        self.fork_cost = fork_cost
         self.procs = []
         self.managers = []
         self.next_pid = 1001
@@ -129,7 +131,13 @@ class SimProcess:
         self.task.attrs["pid"] = self.pid
         self.task.attrs["delay"] = delay
         sim.ev("start", self.pid, speed, delay)
-        sim.yield_(0.0, "proc-start")
+        sim.yield_(w.fork_cost, "proc-start")
+        if w.fork_cost:
+            cap = getattr(sim, "captured", None)
+            if cap is not None:
+                # start-up overhead of the parent: the code under test may or may not count it against
+                # the timeout; the property bounds the search, so the oracle allows for it
+                cap["launch_overhead"] = cap.get("launch_overhead", 0.0) + w.fork_cost
 
     def run(self):
         if self._target:
